@@ -1,4 +1,4 @@
-//@@ unit c04_status properties=C04 noverus bounded=status.terminates_and_equals_the_truth_log_in_every_cache_state
+//@@ unit c04_status properties=C04,C08 noverus bounded=status.terminates_and_equals_the_truth_log_in_every_cache_state
 // This unit carries no Verus obligations: the four status capabilities (compaction_status_v1, provider_cursor_status_v1,
 // provider_cursor_rotate_v1, context_selection_status_v1) are 100-300 line functions over HashMap entries, function-local structs,
 // closures and serde_json values, outside what this Verus accepts.  Their C04 clause - every call terminates and returns exactly
@@ -7,5 +7,11 @@
 // of up to 5 (quick) / 6 (thorough) operations from {message, provider cursor for two keys, context-selection decision, auto
 // compaction, auto.schedule, unrelated job frame} (at most two compaction runs), with caches absent / present and complete /
 // present but every tail scan limited to the newest 1, 2 or 3 frames and reported incomplete (= a thread longer than every tail
-// window).  A call that scans the tail more than 200 times is reported as non-terminating.  Never counted as proved.
+// window).  A call that scans the tail more than 200 times is reported as non-terminating.  The same program checks the
+// context a run is compiled from (also property C08: independent of cache state and read path): the real
+// load_context_compile_input_recent_messages_v1 (observed through the cut point and the 16 messages the real select_recent_messages takes)
+// on threads of 17 / 20 messages with three run-frame patterns, every anchor, messages+runs tail windows {whole, 1, 5, 16, 17, 18, 24, 40};
+// and latest_compaction_checkpoint_for_compile_v1 / hierarchical_compaction_checkpoints_for_compile_v1 (levels 0..3, real cache-side
+// halving selection) on threads of 9 / 12 messages with manual checkpoints at every subset of four cut points, both append orders, one
+// cut point summarised twice, from_seq at the head, mid-thread, 2 and 0 - caches present vs absent.  Never counted as proved.
 fn main() {}
